@@ -48,7 +48,15 @@ impl Topology {
         if *radius < 0.0 || *ndim < 1 || *ntotal < 1 || *index > *ntotal {
             return None;
         }
-        let nedge = f32::ceil((*ntotal as f32).powf(1.0 / *ndim as f32)) as usize;
+        // Smallest edge length whose hypercube holds all indices (integer arithmetic: the
+        // floating point root overshoots at exact powers, e.g. 125 cells in 3 dimensions)
+        let mut nedge: usize = 1;
+        while nedge
+            .checked_pow(*ndim as u32)
+            .map_or(false, |cells| cells < *ntotal)
+        {
+            nedge += 1;
+        }
         if let Some(dindex) = Topology::decompose_index(index, &nedge, ndim) {
             let mut neighbors = vec![];
             for i in 0..*ntotal {
